@@ -359,7 +359,7 @@ func init() {
 		c.Run.Set("accepted_values", accepted)
 		c.Run.Set("accepted_shapes_token_layer", shapes)
 		c.Run.Set("distinct_nontrivial", int64(len(distinct)))
-		c.Run.Set("rule", fmt.Sprintf("every concatenation of 1..%d tokens over %d tokens (keywords, record types, delimiters, numeric bounds, addresses, names) as the $dnsrewrite value, plus the structured product rcode(7) x rrtype(17) x every space-joined value of <=%d of 18 value tokens; distinct_nontrivial = distinct accepted values of the token layer (the shape predicate is evaluated on each)", n, k, vn))
+		c.Run.Set("rule", fmt.Sprintf("every concatenation of 1..%d tokens over %d tokens (keywords, record types, delimiters, numeric bounds, addresses, names) as the $dnsrewrite value, plus the record-shaped layer (MX/SRV/HTTPS/SVCB/TXT/PTR x every value of 0..5 blank-separated fields over 6 field tokens incl. the empty field) and the structured product rcode(7) x rrtype(17) x every space-joined value of <=%d of 24 value tokens; distinct_nontrivial = distinct accepted values of the token layer (the shape predicate is evaluated on each)", n, k, vn))
 		c.Run.Set("exhaustive", exhaustive)
 		c.Run.Assumption("byte-level mutation / coverage guidance is a different family and is not done; the claim is exhaustive up to the token bounds only")
 	})
